@@ -1500,7 +1500,8 @@ class UTPM(Ring, RawAlgorithmsMixIn):
         su = cls.sign(du)
         au = cls.abs(du)
         c = cls.piv2det(PIV) * cls.prod(su)
-        return cls.log(c) + cls.sum(cls.log(au))
+        # c = +1 or -1 is the sign of det; like algopy.logdet on an ndarray (numpy.linalg.slogdet) return log|det|
+        return cls.log(cls.abs(c)) + cls.sum(cls.log(au))
 
 
     @classmethod
